@@ -146,6 +146,7 @@ def generate(seed, prop):
                 "unwrap_single": rng.random() < 0.5, "bare": rng.random() < 0.3,
                 # reader options that do not name the format (obspy detects it): legal, and every reader sees them
                 "noformat": rng.random() < 0.35,
+                "dfn_num": rng.choice(["float", "float", "np32", "npint", "int", "np64"]),
                 "per_rec_as": rng.choice(["list", "list", "list", "tuple", "iter", "gen", "cycle"])}]
     faults = []
     if faulty:
@@ -710,6 +711,16 @@ def run_op(ctx, st, op, H):
             dfn = None
         elif ds == "scalar":
             dfn = entries[0]["spec"]["dfn"]
+            num = op.get("dfn_num", "float")
+            if dfn is not None and num != "float":
+                # one value for all recordings, as callers hold it: a Python int, a numpy scalar read from a station table
+                if num == "np32" and float(np.float32(dfn)) == float(dfn):
+                    dfn = np.float32(dfn)
+                elif num in ("npint", "int") and float(dfn).is_integer():
+                    dfn = np.int64(dfn) if num == "npint" else int(dfn)
+                elif num == "np64":
+                    dfn = np.float64(dfn)
+                ctx.probe("single_orientation_as_" + type(dfn).__name__)
         else:
             dfn = [e["spec"]["dfn"] for e in entries]
         for e in entries:
